@@ -38,6 +38,8 @@ type traceCtl struct {
 	log    []opRec
 	keep   bool // keep the log
 	txnSeq int
+	// onCommit, if set, is called after every successful commit of a transaction
+	onCommit func()
 }
 
 func (c *traceCtl) arm(failAt int, keep bool) {
@@ -192,7 +194,11 @@ func (t *ttxn) Commit() error {
 		t.Txn.Discard()
 		return e
 	}
-	return t.Txn.Commit()
+	err := t.Txn.Commit()
+	if err == nil && t.c.onCommit != nil {
+		t.c.onCommit()
+	}
+	return err
 }
 func (t *ttxn) Discard() {
 	_, _ = t.c.op(-t.id, "discard", nil) // never fails, never counted as a fault point (negative txn marks it)
@@ -238,6 +244,37 @@ func newTracedNode(ctx context.Context, name string, opts ...node.Option) (*Nd, 
 	x := newNd(ctx, name, append([]node.Option{node.WithBadgerInMemory(false), node.WithStoreType(st)}, opts...)...)
 	regMu.Unlock()
 	return x, c, raw
+}
+
+// newNodeOnSnapshot opens a node on a fresh traced Badger-in-memory store that holds exactly the given contents.
+func newNodeOnSnapshot(ctx context.Context, name string, snap map[string]string, opts ...node.Option) (x *Nd, c *traceCtl, raw corekv.TxnStore, err error) {
+	c = &traceCtl{}
+	st := node.StoreType(fmt.Sprintf("verif%d", storeSeq.Add(1)))
+	regMu.Lock()
+	defer regMu.Unlock()
+	node.VerifRegisterStore(st, func(ctx context.Context) (corekv.TxnStore, error) {
+		o := badgerds.DefaultOptions("")
+		o.InMemory = true
+		o.Logger = nil
+		s, err := badger.NewDatastore("", o)
+		if err != nil {
+			return nil, err
+		}
+		for k, v := range snap {
+			if err := s.Set(ctx, []byte(k), []byte(v)); err != nil {
+				return nil, err
+			}
+		}
+		raw = s
+		return &tstore{TxnStore: s, c: c}, nil
+	})
+	defer func() {
+		if p := recover(); p != nil {
+			err = fmt.Errorf("%v", p)
+		}
+	}()
+	x = newNd(ctx, name, append([]node.Option{node.WithBadgerInMemory(false), node.WithStoreType(st)}, opts...)...)
+	return x, c, raw, nil
 }
 
 func dumpStore(ctx context.Context, st corekv.TxnStore) map[string]string {
